@@ -592,28 +592,32 @@ theorem include_stack_split_sound (files : IncStack.Files) (fuel root : Nat) (it
   simp only [List.nil_append] at hk
   exact hk ▸ IncStack.expandsStack_single hs
 
-/-- Conversely, when the include graph has no cycle along the statements that are read (a rank
-that decreases along every INCLUDE in front of the first ENDINC of a file), every layout that
-has a one-piece text is accepted with exactly its keyword sequence: the recursion check never
-refuses a file that was read before and has been closed — by its end or by ENDINC.
-`_partial`: the full statement is `Expands files items ks → files root = some items →
-∃ fuel, run files fuel [(root, items)] [] = some ks` without the rank; missing is the
-construction of the rank from the finite derivation (rank f := INCLUDE depth of the one-piece
-text of file f, which is well defined because derivations are unique). -/
-theorem include_stack_split_complete_partial (files : IncStack.Files) (rank : Nat → Nat)
+/-- Conversely, every layout that HAS a one-piece text is accepted, with exactly the keyword
+sequence of that text: the recursion check never refuses a file that was read before and has
+been closed — by its end or by ENDINC —, however often and from wherever it is read again.
+(`files root = some items`: the root file is what is on disk under its path.) -/
+theorem include_stack_split_complete (files : IncStack.Files) (root : Nat) (items : List IncStack.Item)
+    (ks : List Nat) (hroot : files root = some items) (h : IncStack.Expands files items ks) :
+    ∃ fuel, IncStack.run files fuel [(root, items)] [] = some ks :=
+  IncStack.run_complete_full files root items ks hroot h
+
+/-- The form with an explicit rank (any function that decreases along every INCLUDE in front
+of the first ENDINC of a file with a one-piece text), from which the theorem above follows
+with rank := INCLUDE depth of the one-piece text; the statements of the root frame need not be
+those of a file here. -/
+theorem include_stack_split_complete_ranked (files : IncStack.Files) (rank : Nat → Nat)
     (hac : IncStack.Acyclic files rank) (root : Nat) (items : List IncStack.Item) (ks : List Nat)
     (hroot : IncStack.IncsBelow rank root items) (h : IncStack.Expands files items ks) :
     ∃ fuel, IncStack.run files fuel [(root, items)] [] = some ks :=
   IncStack.run_complete files rank hac root items ks hroot h
 
-/-- Both directions: for an include graph without cycles the layouts over files and the
-one-piece texts have the same keyword sequences. -/
-theorem include_stack_split_iff_partial (files : IncStack.Files) (rank : Nat → Nat)
-    (hac : IncStack.Acyclic files rank) (root : Nat) (items : List IncStack.Item) (ks : List Nat)
-    (hroot : IncStack.IncsBelow rank root items) :
+/-- Both directions: the layouts over files that are accepted are exactly those with a
+one-piece text, and the keyword sequences agree. -/
+theorem include_stack_split_iff (files : IncStack.Files) (root : Nat) (items : List IncStack.Item)
+    (ks : List Nat) (hroot : files root = some items) :
     (∃ fuel, IncStack.run files fuel [(root, items)] [] = some ks) ↔ IncStack.Expands files items ks :=
   ⟨fun ⟨fuel, h⟩ => include_stack_split_sound files fuel root items ks h,
-   include_stack_split_complete_partial files rank hac root items ks hroot⟩
+   include_stack_split_complete files root items ks hroot⟩
 
 /-- More rounds never change the result of the input stack. -/
 theorem include_stack_rounds_irrelevant (files : IncStack.Files) (fuel : Nat) (st : IncStack.Stack)
@@ -643,6 +647,7 @@ example : IncStack.IncsBelow (fun f => 2 - f) 0 [.kw 1, .inc 2, .kw 2, .inc 1, .
   intro g hg; simp [IncStack.live] at hg; rcases hg with rfl | rfl <;> decide
 example : IncStack.Expands incDemo [.kw 1, .inc 2, .kw 2, .inc 1, .kw 3] [1, 10, 2, 10, 20, 10, 3] :=
   include_stack_split_sound incDemo 30 0 _ _ (by decide +kernel)
+example : incDemo 0 = some [.kw 1, .inc 2, .kw 2, .inc 1, .kw 3] := by decide
 -- a file that reads itself, directly or through another one, is refused
 example : IncStack.parseFile (fun f => [[.kw 1, .inc 1], [.kw 2, .inc 0]][f]?) 30 0 = none := by decide +kernel
 example : IncStack.isOpen [(1, []), (0, [.kw 3])] 0 = true := by decide
